@@ -881,6 +881,38 @@ class History(object):
                 o2 = bytes(ref.data[ref.prefix_len():ref.regions()["header"][1]])
                 if o1 != o2:
                     return "share-with-edited-unsigned-offset-table-outranks-intact-shares"
+        if kind.startswith("dbv"):
+            # control experiment (classification only, never a verdict): list only the servers that hold an intact
+            # share of the newest version, so that even the bounded surveys (MODE_READ asks 2k servers, the retry of a
+            # read-only node repeats that, MODE_WRITE stops k empty servers after the last share it found) must reach
+            # them.  If the same kind of node then reads successfully, the failure was one of survey coverage.
+            p = self.p
+            holders = set()
+            for vs in self.g.servers:
+                if vs.index in dmg.lying or not vs.connected:
+                    continue
+                for shnum, path in vs.shares_of(self.si).items():
+                    if shnum in good:
+                        with open(path, "rb") as f:
+                            raw = f.read()
+                        if self.M.share_data_of(raw) == self.M.share_data_of(
+                                next(d[shnum] for d in newest.values() if shnum in d)):
+                            holders.add(vs.index)
+            hidden = [vs for vs in self.g.servers if vs.index not in holders and not vs.hidden]
+            for vs in hidden:
+                vs.hidden = True
+            try:
+                c3 = self.g.make_client(k=p["k"], happy=1, n=p["n"], mutable_format=p["fmt"])
+                uri = self.ro_uri if kind == "dbv-ro-fresh" else self.rw_uri
+                st3, r3 = self.g.wait(c3.create_node_from_uri(uri).download_best_version(),
+                                      horizon=4 * 3600.0, max_steps=MAX_STEPS)
+            finally:
+                for vs in hidden:
+                    vs.hidden = False
+            if st3 not in ("ok", "err"):
+                self.runaway = True
+            if st3 == "ok" and self.match(r3, 0, None) is not None:
+                return "intact-shares-not-located-by-the-bounded-survey"
         clean = set()
         for vs in self.g.servers:
             if vs.index in dmg.lying or not vs.connected:
@@ -915,7 +947,7 @@ class Skip(Exception):
 #   c10-bad-share-aborts-read               _handle_bad_share re-raises BadShareError             caught  read-aborted-by-CorruptShareError-despite-k-intact-shares
 #   c10-unknown-pubkey-trusted-after-first  signature only checked for the first version seen     caught  delivered-unpublished-bytes/forged, /crossfile
 # Violations of the unchanged tree (analysed as genuine, see the report to the lead):
-#   sdmf-iv-not-checked-against-signed-prefix-at-retrieve/uncached-reader, k-intact-shares-on-servers-without-bad-shares-not-used/readonly-node,
+#   sdmf-iv-not-checked-against-signed-prefix-at-retrieve/uncached-reader, intact-shares-not-located-by-the-bounded-survey,
 #   intact-shares-discarded-with-a-bad-share-on-the-same-server, connection-lost-on-another-server-aborts-the-read,
 #   share-with-edited-unsigned-offset-table-outranks-intact-shares, read-never-completes/bad-copy-of-a-duplicated-share-number-retried-forever,
 #   servermap-update-finishes-at-once-when-a-query-fails-synchronously
